@@ -31,6 +31,8 @@ pub struct BigSize(pub u64);
     if $c:cond { return Err(DecodeError::UnknownRequiredFeature); }
 //@with
     fn unknown_tlv_type_is_refused(t: u64) -> bool { $c }
+//@at body_start
+    proof { assert((t & 1u64 == 0) == (t % 2 == 0)) by (bit_vector); assert((t & 1u64 == 1) == (t % 2 == 1)) by (bit_vector); }
 //@ret r
 //@ensures P C13,C12 an-unknown-even-tlv-type-is-refused-and-an-unknown-odd-one-is-skipped
     r == (t % 2 == 0),
